@@ -294,6 +294,7 @@ def new_acc():
             "worst_rel": {}, "distinct": set(), "b3_runs": 0, "b3_exit_mismatch": 0, "b3_trace_equal": 0, "b3_trace_diff": 0,
             "b3_trace_diff_by_kind": {}, "b3_trace_diff_nondegenerate": 0, "b3_trace_diff_samples": [], "b3_model_walks": 0, "block3_walk_cases": 0, "block3_boundary_cases": 0, "rowmod": {}, "violations_by_kind": {}, "violations_by_solver": {}, "medium_worst_need_over_tol": {},
             "forced_model_runs": 0, "forced_by_threads": {}, "forced_diff_samples": [], "block3_forced_step_runs": 0, "ld_judge_compared": 0, "ld_judge_differs": 0,
+            "model_instances": {"block_loop_cases": 0, "n_blocks_variant": {}, "add_rows_cases": 0, "add_rows_coupled": 0},
             "big": {"systems": 0, "runs": 0, "by_solver": {}, "n": [], "worst_need_over_tol": 0.0, "secs": 0.0}}
 
 
@@ -343,6 +344,60 @@ def corpus_stream(ctx, consts, exe, mode, acc, dist):
     if st.get("kind12", 0) + st.get("corpus_skipped_after_hangs", 0) < 20 or st.get("corpus_bad_lines", 0):
         ctx.tie_ok = False; ctx.broken.append({"kind": "forced-step corpus missing or unreadable", "file": CORPUS, "stats": st})
     evaluate(ctx, consts, base + ".in", base + ".impl", NREF, acc, "corpus-" + mode)
+    model_instances(ctx, base, acc)
+
+
+def model_instances(ctx, base, acc):
+    """The two small models behind the new theorems, executed by the driver on what the C runs of the corpus showed:
+    BL: for every (line-search workers T, index k of a forced step printed by walk_descents) the result loop as written
+        (blockLoop, T workers, n_alpha = k+1, no trial reduces the residual) must choose k with feasible = 0 - the index the C code
+        took; the variant with the multiplier n_blocks (seeded change C11-6) is evaluated too and its verdict recorded;
+    AR: rows added to the full-size factor of each corpus matrix (addRows: two and three rows, passive set = the rest): every
+        cholmod_rowadd inside its precondition and the represented matrix equal to A on the enlarged set; with the sets settled
+        first (addRowsSettled, C11-2 / C11-5) the second rowadd is outside its precondition exactly when the first two rows are coupled."""
+    if not ctx.driver_ok(): return
+    pairs = set(); systems = []
+    for c, i in zip(open(base + ".in").read().splitlines(), open(base + ".impl").read().splitlines()):
+        if c.startswith("SYS"): systems.append(c); continue
+        if not i.startswith("ok") or "|" not in i: continue
+        info = kv(i.split("|")[1])
+        if info.get("fidx", "-") != "-":
+            for k in info["fidx"].split(","): pairs.add((int(info.get("threads", "1")), int(k)))
+    lines = []; expect = []
+    for (t, k) in sorted(pairs):
+        m = k + 1
+        lines.append("BL %d %d %d 0" % (t, m, t)); expect.append(("bl", t, k, "written"))
+        lines.append("BL %d %d %d 0" % (t, m, (m + t - 1) // t)); expect.append(("bl", t, k, "n_blocks"))
+    for sl in systems:
+        n = int(sl.split()[3])
+        if n < 4: continue
+        lines.append(sl + " 0"); expect.append(("sys",))
+        lines.append("AR %s %d %d %d" % (sl.split()[1], n, n - 2, n - 1)); expect.append(("ar", 2))
+        lines.append("AR %s %d %d %d %d" % (sl.split()[1], n, 1, n - 1, 2)); expect.append(("ar", 3))
+    fn = base + ".inst"
+    open(fn, "w").write("\n".join(lines) + "\n")
+    if not ctx.run_driver("C11", fn, fn + ".out"):
+        ctx.tie_ok = False; ctx.broken.append({"kind": "driver failed on the model instance checks"}); return
+    out = open(fn + ".out").read().splitlines()
+    if len(out) != len(lines):
+        ctx.tie_ok = False; ctx.broken.append({"kind": "driver output truncated (model instance checks)", "want": len(lines), "got": len(out)}); return
+    inst = acc["model_instances"]
+    for ln, ex, o in zip(lines, expect, out):
+        r = kv(o)
+        if ex[0] == "bl":
+            if ex[3] == "written":
+                inst["block_loop_cases"] += 1
+                if not (r.get("chosen") == str(ex[2]) and r.get("feasible") == "0" and r.get("base") == "0"):
+                    ctx.tie_ok = False; ctx.broken.append({"kind": "blockLoop (result loop of walk_descents as written) does not choose the forced index the C run took", "input": ln, "model": o, "workers": ex[1], "index": ex[2]})
+            else:
+                key = "T=%d n_alpha=%d" % (ex[1], ex[2] + 1)
+                inst["n_blocks_variant"][key] = "never steps (hang)" if r.get("chosen") == "none" else ("steps at %s" % r.get("chosen"))
+        elif ex[0] == "ar":
+            inst["add_rows_cases"] += 1
+            ok = r.get("written") == "some" and r.get("represents") == "1" and ((r.get("settled") == "none") == (r.get("coupled") == "1"))
+            if r.get("coupled") == "1": inst["add_rows_coupled"] += 1
+            if not ok:
+                ctx.tie_ok = False; ctx.broken.append({"kind": "addRows / addRowsSettled instance contradicts modify_factor_add_rows_represents / modify_factor_settle_first_breaks_rowadd", "input": ln[:200], "model": o})
 
 
 BIG_CONSTRUCTION = ("integer symmetric matrix, strictly diagonally dominant with a_ii = 1 + sum_j |a_ij| (+ ridge on the staged coefficients): dense core with "
@@ -463,6 +518,10 @@ def finish(ctx, acc, dist, consts):
         ctx.note("large dense stream: systems=%d n=%s runs=%d; multi-row adds (runs with a call adding >= 2 rows / calls / max rows): %s; worst violation/tolerance %.2e; solver time %.1fs" % (
             big["systems"], sorted(big["n"]), big["runs"], {k.replace("nnls_normal_", ""): "%d of %d/%d/%d" % (v["runs_with_multirow_add"], v["runs"], v["multirow_add_calls"], v["max_rows_in_one_call"]) for k, v in big["by_solver"].items()},
             big["worst_need_over_tol"], big["secs"]))
+    mi = acc["model_instances"]
+    if mi["block_loop_cases"] or mi["add_rows_cases"]:
+        ctx.note("model instances run by the driver: blockLoop on %d observed (workers, forced index) pairs, n_blocks variant: %s; addRows on %d row sets (%d coupled)" % (
+            mi["block_loop_cases"], mi["n_blocks_variant"], mi["add_rows_cases"], mi["add_rows_coupled"]))
     ctx.note("long-double judge vs exact driver on kinds 8-10: compared=%d differ=%d; block3 runs that took a forced step (all streams)=%d" % (acc["ld_judge_compared"], acc["ld_judge_differs"], acc["block3_forced_step_runs"]))
     if acc["violations_by_kind"]: ctx.note("not-KKT results by input class: %s by solver: %s" % (acc["violations_by_kind"], acc["violations_by_solver"]))
     ctx.note("row-by-row factor updates (runs with any / with >= 2 rows added / deleted in one call): %s" % {
